@@ -506,7 +506,7 @@ def project(case: dict, obs: dict, ref: dict, alpha: float, tol: float | None = 
     # ---------------- sites: drive label from the row actually written, interaction label from the matrix actually used
     U = np.asarray(ref["U"])
     if mps and "delta0" in hk:
-        d_lab = [_match_label(v, ref["delta0"]) for v in hk["delta0"]]
+        d_lab = [OFF if (v == 0.0 and w == 0.0) else _match_label(v, ref["delta0"]) for v, w in zip(hk["delta0"], hk["omega0"])]
         M = np.asarray(hk.get("matrix_last", []), dtype=float)
         ns = len(d_lab)
         m_lab = [UNK] * ns
@@ -535,7 +535,12 @@ def project(case: dict, obs: dict, ref: dict, alpha: float, tol: float | None = 
                     # two sites: the matrix is symmetric in them -- any assignment is the same physics
                     m_lab[k] = d_lab[k] if d_lab[k] in cands and {d_lab[0], d_lab[1]} == cands else sorted(cands)[k]
                 elif cands is None:
-                    m_lab[k] = OFF  # all-zero row: interactions of this site are off
+                    # all-zero (or unidentified) row: the interactions of this site are off.  That is what atom
+                    # d_lab[k] itself looks like when no other site carries a driven atom it interacts with.
+                    a = d_lab[k]
+                    partners = [d_lab[l] for l in range(ns) if l != k and d_lab[l] >= 0]
+                    alone = a >= 0 and all(pair_of.get((k, l)) is None for l in range(ns) if l != k) and all(U[a, b] == 0.0 for b in partners)
+                    m_lab[k] = a if alone else OFF
         elif ns <= 1:
             m_lab = list(d_lab)
         rec["ham"] = [[d_lab[k], m_lab[k], m_lab[k], (m_lab[k] if case["given"] else GROUND)] for k in range(ns)]
@@ -753,9 +758,9 @@ def tlc_observed(ctx, name: str, records: list[dict], chunk: int = 3000) -> dict
     out: dict[Any, tuple[str, str]] = {}
     for c0 in range(0, len(records), chunk):
         part = records[c0:c0 + chunk]
-        f = ctx.work / f"{name}_{c0}.json"
+        f = ctx.work / f"observed_{name}_{c0}.json"
         f.write_text(json.dumps(part))
-        res = run_tlc("MCQubitOrderObs", None, workdir=ctx.work, name=f"{name}_{c0}", workers=4, env={"OBS_FILE": str(f)},
+        res = run_tlc("MCQubitOrderObs", None, workdir=ctx.work, name=f"observed_{name}_{c0}", workers=4, env={"OBS_FILE": str(f)},
                       cfg_text="SPECIFICATION ObsSpec\nCONSTANTS\n  V <- cV111\n  MaxN = 2\n  MaxNDim3 = 0\n  MaxNPair = 0\n  Backends <- cBoth\n  Focus = \"all\"\n  FromFile = FALSE\n  Log = FALSE\nINVARIANT ObsVerdictPrinted\n")
         if res["violated"]:
             raise MachineryError(f"TLC observed-structure run {name}: {res['violated']} (see {res['outfile']})")
